@@ -104,6 +104,9 @@ VALUE_PROGRAMS = [
 
 # loops, irreducible flow, recursion, many call sites (C12 / C06)
 LOOP_PROGRAMS = [
+    # dead code that jumps to a live label (C12: a second value analysis used to change the result)
+    "main:\nK1:\nK2:\n    ret\nL1:\n    j K2\n    ecall\n    li t0, 1\n    li a7, 10\n    ecall\nL2:\n    j L1\n    ret\n",
+    "main:\n    li a0, 1\nK:\n    addi a0, a0, 1\n    li a7, 10\n    ecall\nD1:\n    li a0, 5\n    j K\nD2:\n    j D1\n",
     open("/verif/notes/hang-available-values.s").read() if __import__("os").path.exists("/verif/notes/hang-available-values.s") else "",
     open("/verif/notes/hang-liveness-shared-return.s").read() if __import__("os").path.exists("/verif/notes/hang-liveness-shared-return.s") else "",
     "main:\n    li t0, 0\n    li t1, 10\nouter:\n    li t2, 0\ninner:\n    addi t2, t2, 1\n    blt t2, t1, inner\n    addi t0, t0, 1\n    blt t0, t1, outer\n    li a7, 10\n    ecall\n",
